@@ -540,6 +540,63 @@ def check_partition_sites(ctx, rule="R5.2", only=None):
     ctx.floor(rule, "row-partitioned Parallel sites", n, 4 if only is None else len(only))
 
 
+def check_partition_arithmetic(ctx, rule):
+    """_partition_contexts splits n rows into n_jobs consecutive chunks that cover every row exactly once: chunk
+    sizes are the quotient n // j, the first n % j of them one larger (their sum is j*(n//j) + n%j = n for every n
+    and j >= 1), and the starts are their running sum with a leading 0. Decided symbolically on the expressions
+    (single-assignment locals inlined), not on sample values."""
+    from .pattern import find, find_all, match
+    from .c15 import _inline
+    prog = ctx.prog
+    fn = prog.method("BaseMAB", "_partition_contexts")
+    ctx.saw_fn(fn)
+    n = fn.params[1]
+
+    keep = set()
+
+    def T(e):
+        return " ".join(ast.unparse(_inline(fn.node, e, stop=keep)).split())
+    sz, sb = find("_S_ = np.full(_EJ_, _EQ_, dtype=int)", fn.node)
+    if sz is None:
+        sz, sb = find("_S_ = np.full(_EJ_, _EQ_)", fn.node)
+    ok = sz is not None
+    detail = "chunk sizes are not built as np.full(n_jobs, quotient)"
+    if ok:
+        S = sb["_S_"]
+        keep.add(S)
+        J = T(ast.parse(sb["_EJ_"], mode="eval").body)
+        Q = T(ast.parse(sb["_EQ_"], mode="eval").body)
+        incs = [x for x in ast.walk(fn.node) if isinstance(x, ast.AugAssign) and isinstance(x.target, ast.Subscript)
+                and ast.unparse(x.target.value) == S]
+        ok_q = Q == "%s // %s" % (n, J)
+        ok_r = len(incs) == 1 and isinstance(incs[0].op, ast.Add) and ast.unparse(incs[0].value) == "1" and \
+            isinstance(incs[0].target.slice, ast.Slice) and incs[0].target.slice.lower is None and \
+            incs[0].target.slice.step is None and incs[0].target.slice.upper is not None and \
+            T(incs[0].target.slice.upper) == "%s %% %s" % (n, J)
+        rets = [r for r in fn.node.body if isinstance(r, ast.Return)]
+        ok_ret = False
+        if rets and isinstance(rets[-1].value, ast.Tuple) and len(rets[-1].value.elts) == 3:
+            e0, e1, e2 = rets[-1].value.elts
+            ok_ret = T(e0) == J and ast.unparse(e1) in ("%s.tolist()" % S, "list(%s)" % S, S) and \
+                T(e2) in ("[0] + np.cumsum(%s).tolist()" % S, "[0] + list(np.cumsum(%s))" % S)
+        ok = ok_q and ok_r and ok_ret
+        detail = "quotient n // n_jobs: %s (`%s`); first n %% n_jobs chunks one larger: %s (`%s`); returns " \
+                 "(n_jobs, sizes, [0] + cumsum(sizes)): %s" % (
+                     ok_q, Q, ok_r, T(incs[0].target.slice.upper) if len(incs) == 1 and isinstance(
+                         incs[0].target.slice, ast.Slice) and incs[0].target.slice.upper is not None else "?", ok_ret)
+    ctx.check(ok, rule, "_partition_contexts covers the n rows exactly once with consecutive chunks", fn.node, fn,
+              detail, construct="def BaseMAB._partition_contexts (arithmetic)")
+    ej = prog.method("BaseMAB", "_effective_jobs")
+    ctx.saw_fn(ej)
+    size, nj = ej.params[0], ej.params[1]
+    body = [x for x in ej.node.body if not (isinstance(x, ast.Expr) and isinstance(x.value, ast.Constant))]
+    txt = [" ".join(ast.unparse(x).split()) for x in body]
+    ok_e = any(t == "%s = min(%s, %s)" % (nj, nj, size) or t == "%s = min(%s, %s)" % (nj, size, nj) for t in txt) and \
+        txt[-1] == "return %s" % nj
+    ctx.check(ok_e, rule, "_effective_jobs never exceeds the number of rows (no empty chunk is asked to predict)",
+              ej.node, ej, "body: %s" % txt, construct="def BaseMAB._effective_jobs")
+
+
 # ================================================================================================ R5.3
 def check_sharedmem(ctx, F, c, root, w, seen_tasks):
     eng = w.eng
@@ -645,6 +702,7 @@ def check(ctx):
             w = F.focus(c, root, sim=True)
             check_sharedmem(ctx, F, c, root, w, seen_tasks)
     check_partition_sites(ctx)
+    check_partition_arithmetic(ctx, "R5.2")
     check_task_functions(ctx)
     ctx.floor("R5.1", "_predict_contexts implementations analysed", len(seen_impls), 8)
     ctx.floor("R5.3", "shared-memory task functions analysed", len(seen_tasks), 8)
